@@ -3,6 +3,8 @@ package props
 import (
 	"encoding/json"
 	"fmt"
+	"regexp"
+	"strings"
 	"testing"
 
 	"pgregory.net/rapid"
@@ -115,6 +117,67 @@ func c08Twin(fs gen.FaultSession) (why string, skip string) {
 	return "", ""
 }
 
+// ---------------------------------------------------------------------------
+// the same comparison through the built binary (file mode): what the statement
+// reader and the compile step of the REPL loop do around a failure is part of
+// the session as well
+
+var reportRe = regexp.MustCompile(`RUNTIME ERROR : [^\n]*\n(?:(?:    |--> )[^\n]*\n)*(?:memory context [^\n]*\n= stack =+\n(?:IP: [^\n]*\n|No debug[^\n]*\n|corrupt[^\n]*\n)*(?:=+\n)?)*`)
+
+const c08Probe = "write(\"|\" + toa([ga, gb, acc]) + \"|\\n\")"
+
+// c08Script joins the statements; after each one (except those marked noProbe:
+// carriers that do not exist in the twin) the globals are written out.
+func c08Script(stmts []string, skip, noProbe map[int]bool) string {
+	var sb strings.Builder
+	for i, s := range stmts {
+		if skip[i] {
+			continue
+		}
+		sb.WriteString(s + "\n")
+		if i >= len(gen.FaultPrelude) && !noProbe[i] {
+			sb.WriteString(c08Probe + "\n")
+		}
+	}
+	return sb.String()
+}
+
+// c08Binary runs the session and its twin as script files; with the error
+// reports cut out the two outputs must be equal.
+func c08Binary(tb testing.TB, fs gen.FaultSession) string {
+	skipReal, skipTwin, dropped := map[int]bool{}, map[int]bool{}, map[int]bool{}
+	for i, s := range fs.Real {
+		if fs.TwinOf[i] < 0 {
+			dropped[i] = true
+		}
+		if _, perr := parser.Parse(s); perr != nil {
+			// parse errors print an excerpt of the input; they are left to the in-process comparison
+			skipReal[i] = true
+			if fs.TwinOf[i] >= 0 {
+				skipTwin[fs.TwinOf[i]] = true
+			}
+		}
+	}
+	real := runCalc(tb, "file", c08Script(fs.Real, skipReal, dropped), "")
+	twin := runCalc(tb, "file", c08Script(fs.Twin, skipTwin, nil), "")
+	if crashed(real) {
+		return fmt.Sprintf("the binary aborts on the session:\n%s", clipS(lastLines(real.out, 10)))
+	}
+	if crashed(twin) {
+		return fmt.Sprintf("the binary aborts on the twin session:\n%s", clipS(lastLines(twin.out, 10)))
+	}
+	a, b := reportRe.ReplaceAllString(real.out, ""), reportRe.ReplaceAllString(twin.out, "")
+	if a != b {
+		i := 0
+		for i < len(a) && i < len(b) && a[i] == b[i] {
+			i++
+		}
+		lo := max(0, i-120)
+		return fmt.Sprintf("file mode: after %d equal bytes the session with failures prints\n  ...%s\nthe session that never saw them prints\n  ...%s", i, clipS(a[lo:]), clipS(b[lo:]))
+	}
+	return ""
+}
+
 func c08Check(fs gen.FaultSession, checkReport bool) (why, skip string, o outcome) {
 	why, skip = c08Twin(fs)
 	if why != "" || skip != "" {
@@ -135,10 +198,19 @@ func c08Check(fs gen.FaultSession, checkReport bool) (why, skip string, o outcom
 	return "", "", o
 }
 
-func c08Prop(rec *ev.Recorder) func(t *rapid.T) {
+func c08Prop(rec *ev.Recorder, tb testing.TB) func(t *rapid.T) {
+	nth := 0
 	return func(t *rapid.T) {
 		g := &gen.FaultGen{T: t}
 		fs := g.Session()
+		nth++
+		if nth%8 == 0 {
+			// every 8th session also goes through the binary
+			if why := c08Binary(tb, fs); why != "" {
+				fail(t, "C08", "binary", fs, "%s\n--- session (after the library)\n%s", why, fs.Text())
+			}
+			rec.Count("sessions_through_the_binary", 1)
+		}
 		why, skip, o := c08Check(fs, false)
 		if why != "" {
 			fail(t, "C08", "session", fs, "%s\n--- session (after the library)\n%s", why, fs.Text())
@@ -160,12 +232,16 @@ func init() {
 	replayers["C08"] = func(kind string, c json.RawMessage) string {
 		var v gen.FaultSession
 		mustJSON(c, &v)
+		if kind == "binary" {
+			return c08Binary(replayT, v)
+		}
 		why, _, _ := c08Check(v, false)
 		return why
 	}
 }
 
 func TestC08(t *testing.T) {
+	replayT = t
 	if replayMode(t, "C08") {
 		return
 	}
@@ -174,5 +250,5 @@ func TestC08(t *testing.T) {
 		"read() fails because the test process has an exhausted standard input")
 	rec.Extra["regression_cases"] = runRegressions(t, "C08")
 	defer finish(t, rec)
-	rapid.Check(t, c08Prop(rec))
+	rapid.Check(t, c08Prop(rec, t))
 }
